@@ -348,10 +348,10 @@ class C10(Check):
     def _jobs(self, rng, n):
         seed = rng.randrange(1 << 30)
         jobs = []
-        nsingle = 180 * n
+        nsingle = 160 * n
         for lo in range(0, nsingle, 20):
             jobs.append(('single', seed, lo, lo + 20))
-        nthr = 18 * n
+        nthr = 15 * n
         for i in range(nthr):
             jobs.append(('threads', seed, i, i + 1))
         return jobs
